@@ -235,7 +235,7 @@ def run_programs(ctx):
         k = rnd.randint(2, 4)
         programs = [[(rnd.choice([2, 2, 9, 10]), rx.payload(rnd, rnd.choice([0, 1, 5, 20, 125]), "bin")) for _ in range(rnd.randint(0, 3))]
                     for _ in range(k)]
-        acc = [rnd.choice([1, 2, 3, 7, 50, 1000]) for _ in range(rnd.randint(1, 4))]
+        acc = nz([rnd.choice([0, 1, 2, 3, 7, 50, 1000]) for _ in range(rnd.randint(1, 4))])   # (0 = a write that accepts NOTHING: the loop tries again, still under the lock)
         if it % 2:
             sched = [rnd.randrange(k) for _ in range(rnd.randint(0, 120))]
         else:
@@ -255,7 +255,9 @@ def run_programs(ctx):
     for l, m, (programs, acc, eff, wire, frames, excs) in zip(lines, mo, metas):
         mw, morder, mpcs = m.split("|")
         ctx.traces_vs_impl += 1
-        if mw != common.summarize(wire) or set(mpcs) - {"d"}:
+        # (the Lean thread models clip every write to 1..len bytes — `clip` —: runs whose pattern has a write that accepts
+        #  NOTHING are judged by the oracle below only)
+        if 0 not in acc and (mw != common.summarize(wire) or set(mpcs) - {"d"}):
             ctx.diverge("threads:programs", {"op": l[:300]}, m[:200], common.summarize(wire)[:200])
         switches = sum(1 for a, b_ in zip(eff, eff[1:]) if a != b_)
         ctx.case(key=l, nontrivial=switches > 1 and sum(len(p) for p in programs) > 1,
@@ -294,7 +296,7 @@ def run_senders(ctx):
     for _ in range(n):
         k = rnd.randint(2, 4)
         payloads = [rx.payload(rnd, rnd.choice([0, 1, 5, 20, 126, 300]), "bin") for _ in range(k)]
-        acc = [rnd.choice([1, 2, 3, 7, 50, 1000]) for _ in range(rnd.randint(1, 4))]
+        acc = nz([rnd.choice([0, 1, 2, 3, 7, 50, 1000]) for _ in range(rnd.randint(1, 4))])   # (0 = a write that accepts NOTHING: the loop tries again, still under the lock)
         sched = [rnd.randrange(k) for _ in range(rnd.randint(0, 60))]
         cases.append((payloads, acc, sched))
     lines, obs, metas = [], [], []
@@ -309,7 +311,7 @@ def run_senders(ctx):
     for l, m, o, (payloads, acc, sched, eff, wire, frames, excs, rets) in zip(lines, mo, obs, metas):
         mw, morder, mpcs = m.split("|")
         ctx.traces_vs_impl += 1
-        if mw != o or set(mpcs) != {"d"}:
+        if 0 not in acc and (mw != o or set(mpcs) != {"d"}):
             ctx.diverge("threads:senders", {"op": l[:300]}, m[:200], o[:200])
         switches = sum(1 for a, b_ in zip(eff, eff[1:]) if a != b_)
         ctx.case(key=l, nontrivial=switches > 1, cls=f"senders:threads={len(payloads)}:switches={'0-1' if switches <= 1 else '2-5' if switches <= 5 else '6+'}",
@@ -627,6 +629,11 @@ def run_receivers(ctx):
             ctx.diverge("threads:receivers", dict(inp, op=mline[:300]), m[:300], expect[:300])
 
 
+def nz(acc):
+    """an accept pattern (cyclic) must make progress: at least one positive entry."""
+    return acc if any(acc) else acc + [1]
+
+
 def mixed_run(stream_chunks, payloads, keys, schedule, accepts, ops=None):
     """thread 0 receives (and so answers the pings in the stream); threads 1.. send."""
     import websocket
@@ -693,7 +700,7 @@ def run_mixed(ctx):
         frames = [F(9, p) for p in pings] + [F(2, b"M")]
         stream = b"".join(f.enc() for f in frames)
         chunks = [("chunk", c) for c in rx.partitions(stream, rnd, 1)[-1]]
-        acc = [rnd.choice([1, 2, 3, 7, 50]) for _ in range(rnd.randint(1, 4))]
+        acc = nz([rnd.choice([0, 1, 2, 3, 7, 50]) for _ in range(rnd.randint(1, 4))])
         keys = [bytes([0x10 + i, 0x20 + i, 0x30 + i, 0x40 + i]) for i in range(ns + len(pings))]
         if it % 2 == 0:
             sched = [rnd.randrange(ns + 1) for _ in range(rnd.randint(0, 200))]
@@ -708,7 +715,7 @@ def run_mixed(ctx):
         msched, by_thread = mixed_run.last
         progs = [[simnet.srv_frame(10, p, 1, 0, k) for p, k in zip(pings, by_thread.get(0, []))]] + \
                 [[simnet.srv_frame(sops.get(i, 2), p, 1, 0, k)] for i, p in enumerate(payloads) for k in by_thread.get(i + 1, [])[:1]]
-        if len(progs) == ns + 1 and len(progs[0]) == len(pings):
+        if len(progs) == ns + 1 and len(progs[0]) == len(pings) and 0 not in acc:
             cos.append(("m-threads-prog " + ".".join(",".join(f.hex() for f in fs) or "-" for fs in progs) + " " +
                         (".".join(map(str, msched)) or "-") + " " + ".".join(map(str, acc)), common.summarize(wire),
                         {"pings": [p.hex()[:20] for p in pings], "schedule": eff[:120]}))
